@@ -20,6 +20,9 @@ RULE = ('class tables built with types.new_class.  GenericMixin: every shape fam
         'and bind an ordinary generic class with one or two parameters, with 0-2 further subscripted bases whose origin has no __orig_bases__ '
         'before / after it, and plain subclasses; reported only: two subscripted GenericMixin bases, two subscripted generic-class bases none of '
         'which is a GenericMixin class; '
+        'unrelated plain mixins with CLASS-CREATION HOOKS (`__init_subclass__` that does not call super() — a sub class registry —, the cooperative '
+        'version, `__class_getitem__`) at every position around Generic[...] / GenericMixin of a direct class and around the binding base of a binding '
+        'subclass, one or two of them, with binding / plain subclasses; '
         'HISTORIES of queries (kind "history"): a family Money(Generic[T1..Tn], GenericMixin) / Euro(Money[..]) / Dollar(Marker, Money[..]) / '
         'Plain(GenericMixin) / Other(GenericMixin, Generic[T1]) / Sub(Euro) whose instances have identity semantics, are value objects '
         '(__eq__ / __hash__ by a shared value: instances of different classes are equal), are unhashable (__eq__ without __hash__) or are '
@@ -33,7 +36,11 @@ RULE = ('class tables built with types.new_class.  GenericMixin: every shape fam
         '(members of the enum, repeated member, a foreign enum) x transformation none/identity/functools.wraps/attribute-'
         'dropping x subclass with inherited/overridden/new methods x decorated methods from an extra plain mixin base (either '
         'order) x static/class methods, properties, raising properties, attribute-carrying objects x enum values colliding '
-        'with member names x unparametrised / non-enum type argument.  non-trivial = the instance answers with a mapping '
+        'with member names x unparametrised / non-enum type argument x STORED CONFIGURED DECORATORS: the program defines one factory per (type, '
+        'transformation), calls it for a seeded subset of the applications FIRST (in seeded order, together with further calls of the same factory with '
+        'other arguments that are never applied), applies the stored decorators later, and calls the factory on the spot for the remaining applications in '
+        'between (`d1 = foo(1); d2 = foo(2); @d1 def a; @foo(3) def b; @d1 def c`) x an unrelated mixin with __init_subclass__ hooks next to '
+        'WithDecoratedMethods[...].  non-trivial = the instance answers with a mapping '
         'or at least one decorator application exists')
 EXHAUSTIVE = {'quick': False, 'thorough': False}
 ASSUMPTIONS = ['a class subscribed like typing.Sequence (typing._GenericAlias with a _name) is generated only in front of another typing alias: when none '
@@ -82,7 +89,7 @@ def valid(table):
     try:
         build_classes(table, stand_in=True)
         return True
-    except TypeError:
+    except (TypeError, AttributeError):      # AttributeError: typing's own __init_subclass__ was cut off by a hook that does not chain
         return False
 
 
@@ -126,6 +133,29 @@ def _value_hash(self):
 
 
 EQ_KINDS = ['value', 'nohash', 'dataclass']
+HOOK_KINDS = ['nochain', 'chain', 'getitem']
+REGISTRY = []
+
+
+def hook_namespace(kind, holder):
+    """class-creation hooks of an unrelated mixin (`hook` flag of a class):
+    nochain  `__init_subclass__` that registers the sub class and does NOT call super().__init_subclass__() (a sub class registry)
+    chain    the cooperative version
+    getitem  `__class_getitem__` returning the class itself (the mixin wants to be subscriptable: `Registry[str]` is `Registry`)"""
+    if kind == 'nochain':
+        def __init_subclass__(cls, **kwargs):
+            REGISTRY.append(cls.__name__); del REGISTRY[:-8]
+        return {'__init_subclass__': __init_subclass__}
+    if kind == 'chain':
+        def __init_subclass__(cls, **kwargs):
+            REGISTRY.append(cls.__name__); del REGISTRY[:-8]
+            super(holder[0], cls).__init_subclass__(**kwargs)
+        return {'__init_subclass__': __init_subclass__}
+    if kind == 'getitem':
+        def __class_getitem__(cls, item):
+            return cls
+        return {'__class_getitem__': __class_getitem__}
+    return {}
 
 
 def eq_namespace(kind):
@@ -181,7 +211,10 @@ def build_classes(table, stand_in=False, ns_builder=None, enum_objs=None):
                 bases.append(clss[b[1]])
         ns = dict(ns_builder(cid, cd) if ns_builder else {})
         ns.update(eq_namespace(cd.get('eq')))
+        holder = [None]
+        ns.update(hook_namespace(cd.get('hook'), holder))
         c = _types.new_class(f'C{cid}', tuple(bases), {}, lambda d, ns=ns: d.update(ns))
+        holder[0] = c
         if cd.get('eq') == 'dataclass':
             import dataclasses
             c = dataclasses.dataclass(c)          # eq=True: __eq__ by fields (there are none: all instances equal), __hash__ = None
@@ -384,6 +417,39 @@ def generic_cases(rng, tier):
             # reported only: two subscripted generic-class bases, none of them a GenericMixin class (the first one is reported)
             add(tm + [cls_([P(LIB, [ty(0)]), P(LIB + 1, [ty(1), ty(2)]), PL(GM_ID)])], user + 1, None, 'two-foreign-generic')
             add(tm + [cls_([PL(GM_ID), P(LIB + 1, [ty(1), ty(2)]), P(LIB, [ty(0)])])], user + 1, None, 'two-foreign-generic')
+    # unrelated plain mixins with CLASS-CREATION HOOKS at every position: `__init_subclass__` that does not call super() (a sub class
+    # registry), the cooperative version, `__class_getitem__` (binding subclasses only: a direct class would be subscribed through it)
+    for n in ((1, 2) if not big else range(1, NTV + 1)):
+        tvs = list(range(1, n + 1))
+        for core in ([G(tvs), PL(GM_ID)], [PL(GM_ID), G(tvs)]):
+            for hooks in [(h,) for h in ('nochain', 'chain')] + [('nochain', 'chain'), ('chain', 'nochain'), ('nochain', 'nochain')]:
+                k = len(hooks)
+                mix = [cls_([], hook=h) for h in hooks]
+                mids = [LIB + i for i in range(k)]
+                for pos in mix_positions(core, k):
+                    t = mix + [cls_(with_mixins(core, mids, pos))]
+                    if not valid(t):
+                        continue
+                    add(t, LIB + k, args_for(n), 'hook-direct')           # (not subscriptable when the hook cuts typing's own off: `invalid`)
+                    add(t, LIB + k, None, 'hook-unparam')
+                    a2 = args_for(n)
+                    add(t + [cls_([P(LIB + k, a2)])], LIB + k + 1, None, 'hook-binding-of')
+                    add(t + [cls_([PL(LIB + k)])], LIB + k + 1, None, 'hook-plainsub')
+            # the hooks on mixins of the binding subclass
+            gen = cls_(core)
+            for hooks in [(h,) for h in HOOK_KINDS] + [('nochain', 'chain'), ('getitem', 'nochain'), ('nochain', 'nochain')]:
+                k = len(hooks)
+                mix = [cls_([], hook=h) for h in hooks]
+                mids = [LIB + 1 + i for i in range(k)]
+                for pos in mix_positions([None], k):
+                    a2 = args_for(n)
+                    t = [gen] + mix + [cls_(with_mixins([P(LIB, a2)], mids, pos))]
+                    if not valid(t):
+                        continue
+                    b = LIB + 1 + k
+                    add(t, b, None, 'hook-binding')
+                    add(t + [cls_([PL(b)])], b + 1, None, 'hook-binding-plainsub')
+                    add(t + [cls_([], hook='nochain'), cls_([PL(b + 1), PL(b)])], b + 2, None, 'hook-binding-sub-mixin')
     # non-generic users
     add([cls_([PL(GM_ID)])], LIB, None, 'nongeneric')
     add([cls_([]), cls_([PL(GM_ID), PL(LIB)])], LIB + 1, None, 'nongeneric')
@@ -426,7 +492,7 @@ def random_table(rng):
             n = rng.choice([1, 1, 2]); tvs = rng.sample(range(1, NTV + 1), n)
             table.append(cls_([G(tvs)])); arity.append(None); foreign[cid] = n
         elif kind == 'mixin':
-            table.append(cls_([])); arity.append(None)
+            table.append(cls_([], hook=rng.choice(['nochain', 'chain'])) if rng.random() < 0.3 else cls_([])); arity.append(None)
         elif kind == 'cgi':
             table.append(cls_([], cgi=True)); arity.append(None); cgis.append(cid); foreign[cid] = 1
         elif kind == 'user':
@@ -645,13 +711,40 @@ def deco_case(rng, feat=None):
                 over2 = [n for n in base_names + new if rng.random() < 0.25]
                 table.append(cls_([PL(LIB + 1)], rand_ns(over2, LIB + 2))); inst = LIB + 2
     enum = {'members': mkeys, 'clsattrs': [[keys(n), MEMBER_VAL + i] for i, (n, _) in enumerate(members)]}
+    # configured decorators that are STORED and applied later (`get_index = route('/index'); get_about = route('/about'); @get_index def index`):
+    # the factory calls of the program are made first, in the order of `confs`; ["conf", k] applies the k-th of them; the applications left as
+    # [type, value, transformation] call the (shared) factory on the spot, between the applications of stored ones
+    confs = []
+    style = 'fresh'                     # every application makes its own factory: create_decorator(type, tr)(value)(f)
+    if feat == 'stored' or rng.random() < 0.4:
+        style = 'shared'                # one factory per (type, transformation), as a program that defines `foo = create_decorator(..)` once
+        chosen = []
+        for cd in table:
+            for entry in cd['ns']:
+                if entry[2][0] == 'func':
+                    for app in entry[2][2]:
+                        if rng.random() < (0.8 if feat == 'stored' else 0.5):
+                            chosen.append(app)
+        pool = [list(a) for a in chosen]
+        for a in chosen:                # the same factory called again with another argument, never applied / applied elsewhere
+            if rng.random() < (0.7 if feat == 'stored' else 0.3):
+                pool.append([a[0], (a[1] + 1 + rng.randrange(NVALS - 1)) % NVALS, a[2]])
+        order = list(range(len(pool)))
+        rng.shuffle(order)
+        confs = [pool[i] for i in order]
+        where = {i: k for k, i in enumerate(order)}
+        for i, a in enumerate(chosen):
+            a[:] = ['conf', where[i]]
+    # an unrelated mixin with class-creation hooks next to WithDecoratedMethods[...]
+    if shape in ('mixin-first', 'mixin-last') and rng.random() < 0.4:
+        table[0]['hook'] = rng.choice(['nochain', 'chain'])
     return {'m': 'mixins',
-            'c': {'k': 'decorated', 'table': table, 'cls': inst, 'orig': None, 'enums': [[ENUM_TY, enum]]},
-            'x': {'fam': 'deco-' + (feat or 'plain') + '-' + shape, 'members': members, 'foreign': FOREIGN,
+            'c': {'k': 'decorated', 'table': table, 'cls': inst, 'orig': None, 'enums': [[ENUM_TY, enum]], 'confs': confs},
+            'x': {'fam': 'deco-' + (feat or 'plain') + '-' + shape, 'members': members, 'foreign': FOREIGN, 'style': style,
                   'keys': {str(v): k for k, v in keys.ids.items()}, 'ns': {str(k): v for k, v in xns.items()}}}
 
 
-FEATS = [None] * 10 + ['collision', 'static', 'prop', 'raising', 'holder', 'dunder', 'fresh', 'unparam', 'nonenum']
+FEATS = [None] * 10 + ['collision', 'static', 'prop', 'raising', 'holder', 'dunder', 'fresh', 'unparam', 'nonenum', 'stored', 'stored', 'stored']
 
 
 def deco_cases(rng, tier):
@@ -814,6 +907,25 @@ class DecoCtx:
         self.chains = {}             # (cid, unders, stem) -> [function objects: def, wrapper 1, …]
         self.calls = {}              # (cid, unders, stem) -> [received args]
         self.holder_attrs_done = set()
+        self.style = x.get('style', 'fresh')
+        self.factories = {}          # (key, transformation kind) -> the one factory a program defines for it
+        self.orphan_calls = []       # transformation calls whose function argument belongs to no known function
+        # the factory calls of the program, in order: configured decorators that are stored
+        self.stored = [self.factory_for(k, trk)(self.vals[v]) for k, v, trk in case['c'].get('confs', [])]
+
+    def factory_for(self, k, trk):
+        if (k, trk) not in self.factories:
+            member = self.member_by_key[k]
+            tr = None if trk == 'none' else self.transformation(trk, None)
+            self.factories[(k, trk)] = self.create_decorator(member, tr) if tr is None else \
+                self.create_decorator(decorator_type=member, transformation=tr)
+        return self.factories[(k, trk)]
+
+    def site_of(self, f):
+        for site, chain in self.chains.items():
+            if any(g is f for g in chain):
+                return site
+        return None
 
     def mkfunc(self, name, is_async):
         if is_async:
@@ -824,12 +936,16 @@ class DecoCtx:
         return m
 
     def transformation(self, kind, site):
-        chain = self.chains[site]; log = self.calls[site]
-
+        """site None: a transformation shared by all applications of one factory — the method it is applied to is found through the function"""
         def tr(*args, **kwargs):
-            log.append((args, kwargs))
             f = args[0] if args and callable(args[0]) and not isinstance(args[0], str) else next(
                 (a for a in list(args) + list(kwargs.values()) if inspect.isfunction(a)), None)
+            st = site if site is not None else self.site_of(f)
+            if st is None:
+                self.orphan_calls.append((args, kwargs))
+                return f
+            chain = self.chains[st]; log = self.calls[st]
+            log.append((args, kwargs))
             if kind == 'ident' or f is None:
                 return f
             if inspect.iscoroutinefunction(f):
@@ -845,7 +961,14 @@ class DecoCtx:
         return tr
 
     def apply(self, f, apps, site):
-        for k, v, trk in apps:
+        for app in apps:
+            if app[0] == 'conf':
+                f = self.stored[app[1]](f)               # a configured decorator made earlier, applied now
+                continue
+            k, v, trk = app
+            if self.style == 'shared':
+                f = self.factory_for(k, trk)(self.vals[v])(f)      # `@foo(v)`: the program's one factory, called on the spot
+                continue
             member = self.member_by_key[k]
             tr = None if trk == 'none' else self.transformation(trk, site)
             f = self.create_decorator(member, tr)(self.vals[v])(f) if tr is None else \
@@ -933,6 +1056,8 @@ class DecoCtx:
                 if kwargs: e.append(['kwargs', sorted(kwargs)])
                 entries.append(e)
             out.append([site[0], site[1], site[2], entries])
+        if self.orphan_calls:
+            out.append([-1, 0, '<a transformation received a function that is no method of the program>', [[len(self.orphan_calls)]]])
         return sorted(out, key=json.dumps)
 
 
@@ -960,7 +1085,7 @@ def render(c):
         if b[0] == 'param': return cn(b[1]) + '[' + ', '.join(ta(a) for a in b[2]) + ']'
         return cn(b[1])
     decl = '; '.join(f"class C{LIB + k}({', '.join(base(b) for b in cd['bases'])})" + ((' <subscribed like typing.Sequence, no __orig_bases__>' if cd.get('cgi') == 'typing' else ' <subscriptable like list, no __orig_bases__>')
-                        if cd.get('cgi') else '') + (f" <instances: {cd['eq']}>" if cd.get('eq') else '')
+                        if cd.get('cgi') else '') + (f" <instances: {cd['eq']}>" if cd.get('eq') else '') + (f" <hook: {cd['hook']}>" if cd.get('hook') else '')
                      for k, cd in enumerate(c['table']))
     inst = cn(c['cls']) + ('[' + ', '.join(ta(a) for a in c['orig']) + ']' if c['orig'] is not None else '') + '()'
     return f'{decl}; {inst}'
